@@ -20,15 +20,15 @@ fn c03_make_vote_no_tc() {
     let block = blk(1, round, any_digest(), qcr);
     let v = run_ready(env.core.make_vote(&block));
     let ok = round > lv && qcr + 1 == round;
-    assert!(v.is_some() == ok);
+    assert!(v.is_some() == ok, "C03 vote decision differs from the voting rule (no TC)");
     if let Some(ref v) = v {
-        assert!(v.round == round && v.author == key(0) && v.hash == block.digest());
-        assert!(env.core.last_voted_round == round);
-        assert!(qcr < round);
+        assert!(v.round == round && v.author == key(0) && v.hash == block.digest(), "C03 vote fields");
+        assert!(env.core.last_voted_round == round, "C03 last_voted_round not raised by a vote");
+        assert!(qcr < round, "C03 voted block QC not below the block round");
         // the vote carries this node's (ideal) signature over the vote digest
-        assert!(v.signature.verify(&v.digest(), &key(0)).is_ok());
+        assert!(v.signature.verify(&v.digest(), &key(0)).is_ok(), "C03 vote not signed by the node");
     } else {
-        assert!(env.core.last_voted_round == lv);
+        assert!(env.core.last_voted_round == lv, "C03 last_voted_round changed without a vote");
     }
     vwit::cover!(v.is_some());
     vwit::cover!(v.is_none() && round > lv);
@@ -61,14 +61,14 @@ fn c03_make_vote_tc() {
     let v = run_ready(env.core.make_vote(&block));
     let maxhq = hq[0].max(hq[1]).max(hq[2]);
     let ok = round > lv && (qcr + 1 == round || (tcr + 1 == round && qcr >= maxhq));
-    assert!(v.is_some() == ok);
+    assert!(v.is_some() == ok, "C03 vote decision differs from the voting rule (TC branch)");
     if let Some(ref v) = v {
-        assert!(v.round == round && v.author == key(0));
-        assert!(env.core.last_voted_round == round);
+        assert!(v.round == round && v.author == key(0), "C03 vote fields");
+        assert!(env.core.last_voted_round == round, "C03 last_voted_round not raised by a vote");
         // in both branches the block's QC is of a lower round than the block
-        assert!(qcr < round || tcr + 1 == round);
+        assert!(qcr < round || tcr + 1 == round, "C03 voted block QC not below the block round");
     } else {
-        assert!(env.core.last_voted_round == lv);
+        assert!(env.core.last_voted_round == lv, "C03 last_voted_round changed without a vote");
     }
     vwit::cover!(v.is_some() && qcr + 1 != round);
     vwit::cover!(v.is_none() && tcr + 1 == round && round > lv);
@@ -419,5 +419,72 @@ fn c02_commit_sym2() {
     vwit::cover!(j == 1 && r1 > r0 + 1);
     std::mem::forget(res);
     std::mem::forget((b0, b1, d0));
+    std::mem::forget(env);
+}
+
+// ===================================================================================== C01: rule extraction (cover queries only)
+/// No assertion here: each cover asks the solver whether the REAL code can take a node-local step that the bounded
+/// agreement model (smt/agree.py) would have to allow. The answers (SATISFIED / UNSATISFIABLE) are read by the C01 engine
+/// and become the model's knobs, so the model is regenerated from the code on every run.
+#[kani::proof]
+#[kani::unwind(10)]
+fn c01_rules_vote() {
+    let mut env = mk_core(0, &EQ4);
+    let lv: Round = vwit::any_u64();
+    env.core.last_voted_round = lv;
+    let round: Round = vwit::any_u64();
+    let qcr: Round = vwit::any_u64();
+    let tcr: Round = vwit::any_u64();
+    let hq: [Round; 3] = vwit::any_u64s::<3>();
+    vwit::assume(round < (1u64 << 62) && qcr < (1u64 << 62) && tcr < (1u64 << 62) && hq[0] < (1u64 << 62) && hq[1] < (1u64 << 62) && hq[2] < (1u64 << 62));
+    let mut block = blk(1, round, any_digest(), qcr);
+    block.tc = Some(TC {
+        round: tcr,
+        votes: vec![
+            (key(0), Signature::default(), hq[0]),
+            (key(1), Signature::default(), hq[1]),
+            (key(2), Signature::default(), hq[2]),
+        ],
+    });
+    let v = run_ready(env.core.make_vote(&block));
+    let voted = v.is_some();
+    let maxhq = hq[0].max(hq[1]).max(hq[2]);
+    vwit::cover!(voted && round == lv, "RULE vote_at_equal_round");
+    vwit::cover!(voted && round < lv, "RULE vote_below_last_voted");
+    vwit::cover!(voted && qcr + 1 != round && tcr + 1 != round, "RULE vote_without_consecutive_certificate");
+    vwit::cover!(voted && qcr + 1 != round && tcr + 1 == round && qcr + 1 == maxhq, "RULE tc_vote_qc_one_below_max_high_qc");
+    vwit::cover!(voted && qcr + 1 != round && tcr + 1 == round && qcr + 2 <= maxhq, "RULE tc_vote_qc_far_below_max_high_qc");
+    vwit::cover!(voted && qcr + 1 == round && round > lv, "RULE sanity_qc_vote_possible");
+    vwit::cover!(voted && qcr + 1 != round && tcr + 1 == round && qcr >= maxhq && round > lv, "RULE sanity_tc_vote_possible");
+    vwit::cover!(voted && env.core.last_voted_round < round, "RULE vote_does_not_record_round");
+    // quorum threshold of the 4 x stake 1 committee used by the model
+    let q = env.core.committee.quorum_threshold();
+    vwit::cover!(q == 1, "RULE q_is_1");
+    vwit::cover!(q == 2, "RULE q_is_2");
+    vwit::cover!(q == 3, "RULE q_is_3");
+    vwit::cover!(q >= 4, "RULE q_is_4_or_more");
+    std::mem::forget(v);
+    std::mem::forget(block);
+    std::mem::forget(env);
+}
+/// same without a TC
+#[kani::proof]
+#[kani::unwind(10)]
+fn c01_rules_vote_notc() {
+    let mut env = mk_core(0, &EQ4);
+    let lv: Round = vwit::any_u64();
+    env.core.last_voted_round = lv;
+    let round: Round = vwit::any_u64();
+    let qcr: Round = vwit::any_u64();
+    vwit::assume(round < (1u64 << 62) && qcr < (1u64 << 62));
+    let block = blk(1, round, any_digest(), qcr);
+    let v = run_ready(env.core.make_vote(&block));
+    let voted = v.is_some();
+    vwit::cover!(voted && round == lv, "RULE vote_at_equal_round");
+    vwit::cover!(voted && round < lv, "RULE vote_below_last_voted");
+    vwit::cover!(voted && qcr + 1 != round, "RULE vote_without_consecutive_certificate");
+    vwit::cover!(voted && qcr + 1 == round && round > lv, "RULE sanity_qc_vote_possible");
+    std::mem::forget(v);
+    std::mem::forget(block);
     std::mem::forget(env);
 }
